@@ -16,13 +16,16 @@ def build(ctx):
            why='pdf text extraction (lopdf / pdf_extract / python) is outside the verifier')
     s.sub(r'(?ms)^use [^;]*;\n', '', 'select')
     s.ext_fn('get_num_pages', why='lopdf page table')
-    s.ext_fn('load_pages', why='pdf text extraction; contract: loads exactly the requested pages, keeps the others')
+    # load_pages: the text extraction itself is a hole (one text per requested page); the cache update loop is the repository's
+    s.sub(r'(?s)let page_texts_res = if self\.load_async_blocking \{\s*get_pages_text_async_blocking\(self\.doc\.clone\(\), &page_numbers\)\s*\} else \{\s*get_pages_text\(self\.doc\.as_ref\(\), &page_numbers\)\s*\};',
+          'let page_texts_res = hole_get_pages_text(self.load_async_blocking, page_numbers);', 'H', required=True)
+    s.replace('for (page_num, text) in page_numbers.iter().zip(page_texts) {', 'let __pairs = hole_zip(page_numbers, page_texts);\n                for (page_num, text) in __pairs {', 'H')
     s.replace("(1..num_pages + 1).filter(|p| !found_pages.contains(p)).collect();", "hole_missing_pages(num_pages, &found_pages);", 'H')
     s.replace("self.unyielded_pages = group_pages.iter().map(|pn| *pn).collect();", "self.unyielded_pages = hole_to_deque(group_pages);", 'H')
     s.replace("impl<'a> Iterator for OptimizedPageIter<'a> {\n    // Page number and text\n    type Item = (u32, Rc<String>);\n\n    fn next(&mut self) -> Option<Self::Item> {",
               "impl<'a> OptimizedPageIter<'a> {\n    // Page number and text\n    pub fn next(&mut self) -> Option<(u32, Rc<String>)> {", 'R23')
     body = ("use std::{collections::VecDeque, rc::Rc, sync::Arc};\nuse std::collections::HashSet;\nuse crate::lopdf::Document;\n"
-            "use crate::util::basic::SError;\nuse crate::stdx::*;\n" + s.text())
+            "use crate::util::basic::SError;\nuse crate::stdx::*;\nuse vstd::std_specs::iter::IteratorSpec;\n" + s.text())
     d = os.path.join(os.path.dirname(os.path.dirname(os.path.abspath(__file__))), 'shim')
     head = shim('base', 'std').replace(MARKER, '') + open(os.path.join(d, 'pdf_stubs.rs')).read() + MARKER
     return head + "verus! {\n" + mod('peripheral', mod('pdf', body)) + "} // verus!\nfn main() {}\n"
